@@ -11,6 +11,7 @@ import (
 	"go.lsp.dev/uri"
 
 	"github.com/juev/hledger-lsp/internal/analyzer"
+	"github.com/juev/hledger-lsp/internal/ast"
 	"github.com/juev/hledger-lsp/internal/cli"
 	"github.com/juev/hledger-lsp/internal/formatter"
 	"github.com/juev/hledger-lsp/internal/include"
@@ -465,10 +466,49 @@ func (s *Server) GetResolved(docURI protocol.DocumentURI) *include.ResolvedJourn
 func (s *Server) getWorkspaceResolved(docURI protocol.DocumentURI) *include.ResolvedJournal {
 	if s.workspace != nil {
 		if resolved := s.workspace.GetResolved(); resolved != nil {
-			return resolved
+			return s.withOpenDocuments(resolved)
 		}
 	}
-	return s.GetResolved(docURI)
+	return s.withOpenDocuments(s.GetResolved(docURI))
+}
+
+// withOpenDocuments returns the resolved tree with every file that is open in
+// the editor taken from its editor text instead of from disk, so that requests
+// see unsaved edits. The resolved tree itself is shared and is not modified.
+func (s *Server) withOpenDocuments(resolved *include.ResolvedJournal) *include.ResolvedJournal {
+	if resolved == nil {
+		return nil
+	}
+	overlay := *resolved
+	copied := false
+	s.documents.Range(func(key, value any) bool {
+		docURI, ok := key.(protocol.DocumentURI)
+		content, isText := value.(string)
+		if !ok || !isText {
+			return true
+		}
+		path := uriToPath(docURI)
+		if path == "" {
+			return true
+		}
+		if path == overlay.PrimaryPath {
+			overlay.Primary, _ = parser.Parse(content)
+			return true
+		}
+		if _, included := overlay.Files[path]; included {
+			if !copied {
+				files := make(map[string]*ast.Journal, len(overlay.Files))
+				for p, j := range overlay.Files {
+					files[p] = j
+				}
+				overlay.Files = files
+				copied = true
+			}
+			overlay.Files[path], _ = parser.Parse(content)
+		}
+		return true
+	})
+	return &overlay
 }
 
 func (s *Server) RootURI() string {
